@@ -248,6 +248,22 @@ def _document_level(ck, repo, w):
     rec = [c for c in uv.calls(u.name)]
     ok = len(rec) == 1 and "'spreads'" in unparse(rec[0].args[0])
     ck.ob("variable usage is collected through fragment spreads, recursively", ok, u, rec[0] if rec else u.node, construct="vars:through-spreads")
+    for rel, fname in ((RULES_PKG + "utils.py", "_find_var_usage_in_spread"), (RULES_PKG + "all_variable_usages_are_allowed.py", "_find_args_using_var_in_spread")):
+        fn = repo.func(rel, fname)
+        fnv = FuncView(fn)
+        acc = fn.positional_params[2]
+        rebound = [n for n in walk_no_nested(fn.node) if isinstance(n, ast.Assign) and unparse(n.targets[0]) == acc and unparse(n.value) in ("[]", "list()")]
+        for c in fnv.calls(fname):
+            st = fnv.stmt_of(c)
+            threaded = isinstance(st, ast.Assign) and unparse(st.targets[0]) == acc and st.value is c and unparse(c.args[-1]) == acc
+            ck.ob(f"{fname}: the accumulator returned by the recursive call is the one kept (the callee replaces an empty accumulator by a new list)", threaded or not rebound, fn, c,
+                  construct=f"threading:{fname}", detail="a bare recursive call loses everything found below when the accumulator was still empty: variables used only in nested fragments look unused")
+        rets = fnv.returns()
+        ck.ob(f"{fname} returns its accumulator", len(rets) == 1 and unparse(rets[0].value) == acc, fn, rets[0] if rets else fn.node, construct=f"threading:{fname}:return")
+        ext = [c for c in fnv.calls("extend") if unparse(c.func.value) == acc]
+        lp = fnv.enclosing(ext[0], (ast.For,)) if ext else None
+        ck.ob(f"{fname}: every spread contributes what its fragment uses", len(ext) == 1 and lp is not None and unparse(lp.iter) == fn.positional_params[0] and
+              not any(isinstance(x, (ast.Break, ast.Continue, ast.Return)) for x in walk_no_nested(lp)), fn, ext[0] if ext else fn.node, construct=f"threading:{fname}:extend")
     g = repo.func(RULES_PKG + "utils.py", "get_used_vars")
     gv = FuncView(g)
     ok = gv.maybe_call("_find_var_usage_in_spread") is not None
